@@ -14,6 +14,19 @@ for line in p.stdout.splitlines():
     if e.get("Action") in ("pass", "fail", "skip") and e.get("Test"):
         res[e["Package"] + "::" + e["Test"]] = e["Action"]
 bad = sorted(t for t in want if res.get(t) != "pass")
+# wall-clock-deadline tests fail under machine load: re-run each non-passing test alone, once
+repo = (sys.argv[1] if len(sys.argv)>1 else "/repo")
+still = []
+for t in bad[:25]:
+    pkg, name = t.split("::", 1)
+    top = name.split("/")[0]
+    rel = "./" + pkg.split("github.com/pdfcpu/pdfcpu/", 1)[-1]
+    q = subprocess.run(["go", "test", "-vet=off", "-count=1", "-run", "^" + top + "$", rel], cwd=repo, env=env, stdout=subprocess.PIPE, stderr=subprocess.STDOUT, text=True)
+    if q.returncode != 0:
+        still.append(t)
+    else:
+        print("  (passed when re-run alone: %s)" % t)
+bad = still + bad[25:]
 print("stable_pass=%d passed_now=%d not_passing=%d" % (len(want), sum(1 for t in want if res.get(t) == "pass"), len(bad)))
 for t in bad[:40]:
     print("  NOT PASSING:", t, res.get(t))
